@@ -79,6 +79,11 @@ LEADZ = {'dh': {'modp1024': {1: 96, 2: 32292}, 'modp2048': {1: 53, 2: 79111}, 'd
          'ec': {'P-256': {1: 27, 2: 88197}, 'P-384': {1: 393, 2: 1590}, 'P-521': {1: 4, 2: 1071}},
          'x': {'X25519': {'lead': 44, 'trail': 77}, 'X448': {'lead': 387, 'trail': 254}}}
 
+# Peers whose RAW public value looks like a DER OCTET STRING header (04 LL with LL = length - 2, or 04 81 LL with LL = length - 3): the token tells raw from
+# DER-wrapped CKM_ECDH1_DERIVE public data by such a look, guarded by a list of known raw lengths; 1 peer in 256 (EC) / 65536 (X25519, X448) is of this kind.
+#   EC: peer = k * G, smallest k found; X: peer secret = SHAKE256(b'c10-der-lookalike-<i>').  P-521 has no such point (first octet of X is 00 or 01).
+DERLIKE = {'ec': {'P-256': {'der-short': 111, 'der-long': 55000}, 'P-384': {'der-short': 94, 'der-long': 65553}},
+           'x': {'X25519': {'der-short': 26894}, 'X448': {'der-short': 56606}}}
 import functools
 @functools.lru_cache(None)
 def leadz_peers():
@@ -87,6 +92,12 @@ def leadz_peers():
     for g, d in LEADZ['dh'].items(): own = K['dh'][g][0]; out['dh'][g] = {n: R.DHKey(own.p, own.g, k) for n, k in d.items()}
     for c, d in LEADZ['ec'].items(): out['ec'][c] = {n: R.ECKey(R.CURVES[c], k) for n, k in d.items()}
     for c, d in LEADZ['x'].items(): own = K['x'][c][0]; out['x'][c] = {n: R.XKey(c, hashlib.shake_256(b'c13-leading-zero-%d' % i).digest(len(own.sk))) for n, i in d.items()}
+    for c, d in DERLIKE['ec'].items():
+        for n, k in d.items():
+            pk = R.ECKey(R.CURVES[c], k); raw = pk.point(); assert raw[0] == 4 and (raw[1] == len(raw) - 2 if n == 'der-short' else (raw[1] == 0x81 and raw[2] == len(raw) - 3)); out['ec'][c][n] = pk
+    for c, d in DERLIKE['x'].items():
+        own = K['x'][c][0]
+        for n, i in d.items(): pk = R.XKey(c, hashlib.shake_256(b'c10-der-lookalike-%d' % i).digest(len(own.sk))); assert pk.pk[0] == 4 and pk.pk[1] == len(pk.pk) - 2; out['x'][c][n] = pk
     return out
 def search_leading_zero():
     """the search that produced LEADZ (Z_k = Z_(k-1) * y_own resp. P_k = P_(k-1) + Q_own: one multiplication / point addition per candidate)"""
